@@ -68,6 +68,7 @@ class C05(SpecValueCheck):
         p.kinds = list(PER_KINDS) + ['INTEGER'] * 3 + ['IA5String', 'BIT STRING', 'OCTET STRING']
         p.real_wc = False
         p.root2 = True
+        p.choice_tags_ascending_rate = 85
         return p
 
     def valcfg(self, tier, shard):
